@@ -737,3 +737,226 @@ def variant_target(sw, body, name):
     if body.is_unreachable_block(o):
         return None
     return o
+
+
+# --------------------------------------------------------------------------
+# symbolic terms: a small expression tree obtained by following single-definition
+# temporaries backwards.  Terms are tuples:
+#   ("const", value) ("fn", path) ("arg", n) ("local", l)  [multi-def / named variable]
+#   ("call", normalised callee name, [arg terms], Site)
+#   ("ref", term) ("proj", term, projection tuple) ("binop", op, l, r) ("unop", op, t)
+#   ("agg", adt|kind, variant, {field: term}) ("discr", term) ("cast", term) ("promoted", n)
+
+def _norm(path):
+    out = []
+    depth = 0
+    for ch in path or "":
+        if ch == "<":
+            depth += 1
+        elif ch == ">":
+            depth -= 1
+        elif depth == 0:
+            out.append(ch)
+    s = "".join(out)
+    while "::::" in s:
+        s = s.replace("::::", "::")
+    return s.strip(":")
+
+
+def _proj_key(proj):
+    return place_key({"l": 0, "p": proj})[1]
+
+
+def term_of(body, x, depth=0, stop_named=True):
+    """term for an operand or place"""
+    if depth > 40:
+        return ("deep",)
+    if "l" not in x:
+        c = op_const(x)
+        if c is not None:
+            v = const_value(c)
+            if v is not None:
+                return ("const", v)
+            if "fndef" in c["ty"]:
+                return ("fn", c["ty"]["fndef"])
+            if "closure" in c["ty"]:
+                return ("fn", c["ty"]["closure"])
+            if "promoted" in c:
+                pb = body.crate.promoted(body, c["promoted"]) if body.kind != "promoted" else None
+                if pb is not None:
+                    # promoted bodies compute a reference to a constant in _0
+                    return term_of(pb, {"l": 0, "p": []}, depth + 1)
+                return ("promoted", c["promoted"])
+            return ("const", c.get("dbg"))
+        x = op_place(x)
+        if x is None:
+            return ("unknown",)
+    place = body.canon(x)
+    l = place["l"]
+    base = _local_term(body, l, depth, stop_named)
+    proj = list(place["p"])
+    return _apply_proj(base, proj)
+
+
+def _apply_proj(base, proj):
+    while proj:
+        e = proj[0]
+        if e == "deref" and base[0] == "ref":
+            base = base[1]
+            proj = proj[1:]
+            continue
+        if isinstance(e, dict) and "f" in e and base[0] == "agg" and e["f"] in base[3]:
+            base = base[3][e["f"]]
+            proj = proj[1:]
+            continue
+        if isinstance(e, dict) and "i" in e and "f" not in e and base[0] == "agg" and str(e["i"]) in base[3]:
+            base = base[3][str(e["i"])]
+            proj = proj[1:]
+            continue
+        if isinstance(e, dict) and "dc" in e and base[0] == "agg" and base[2] == e["dc"]:
+            proj = proj[1:]
+            continue
+        break
+    if proj:
+        return ("proj", base, _proj_key(proj))
+    return base
+
+
+def _local_term(body, l, depth, stop_named):
+    if 1 <= l <= body.arg_count:
+        return ("arg", l)
+    ds = body.defs().get(l, [])
+    whole = [d for d in ds if (d.si is None) or (d.node["k"] == "assign" and not d.node["place"]["p"])]
+    if len(ds) != 1 or len(whole) != 1:
+        return ("local", l)
+    d = whole[0]
+    n = d.node
+    if d.si is None:
+        return ("call", _norm(n["callee"].get("path", "")), [term_of(body, a, depth + 1, stop_named) for a in n["args"]], d)
+    rv = n["rv"]
+    k = rv["k"]
+    if k == "use":
+        return term_of(body, rv["op"], depth + 1, stop_named)
+    if k in ("ref", "rawptr"):
+        return ("ref", term_of(body, rv["place"], depth + 1, stop_named))
+    if k == "cast":
+        return ("cast", term_of(body, rv["op"], depth + 1, stop_named), rv["kind"])
+    if k == "binop":
+        return ("binop", rv["op"], term_of(body, rv["l"], depth + 1, stop_named), term_of(body, rv["r"], depth + 1, stop_named))
+    if k == "unop":
+        return ("unop", rv["op"], term_of(body, rv["o"], depth + 1, stop_named))
+    if k == "discr":
+        return ("discr", term_of(body, rv["place"], depth + 1, stop_named))
+    if k == "agg":
+        if rv["kind"] == "adt":
+            names = rv["fields"]
+            return ("agg", rv["adt"], rv["variant"], {f: term_of(body, o, depth + 1, stop_named) for f, o in zip(names, rv["ops"])})
+        return ("agg", rv.get("closure", rv["kind"]), None, {str(i): term_of(body, o, depth + 1, stop_named) for i, o in enumerate(rv["ops"])})
+    return ("unknown", k)
+
+
+TRANSPARENT_CALLS = ("std::ops::Deref::deref", "std::ops::DerefMut::deref_mut", "std::convert::AsRef::as_ref",
+                     "std::borrow::Borrow::borrow", "std::convert::AsMut::as_mut", "std::borrow::BorrowMut::borrow_mut",
+                     "std::string::String::as_str", "std::vec::Vec::as_slice", "std::vec::Vec::as_mut_slice",
+                     "std::string::String::as_bytes", "core::str::as_bytes")
+VALUE_PRESERVING = TRANSPARENT_CALLS + (
+    "std::clone::Clone::clone", "std::string::ToString::to_string", "std::borrow::ToOwned::to_owned",
+    "std::convert::Into::into", "std::convert::From::from", "core::str::to_string", "core::str::to_owned",
+    "std::string::String::clone", "std::hint::must_use")
+
+
+def strip(t, calls=TRANSPARENT_CALLS):
+    """remove references, dereferences, checked-add tuple projections and transparent calls"""
+    while True:
+        if t[0] == "ref":
+            t = t[1]
+        elif t[0] == "proj" and all(e == "*" for e in t[2]):
+            t = t[1]
+        elif t[0] == "proj" and t[1][0] == "binop" and t[1][1].endswith("WithOverflow") and t[2] == (("i", 0),):
+            t = ("binop", t[1][1].replace("WithOverflow", ""), t[1][2], t[1][3])
+        elif t[0] == "proj" and t[2] and t[2][0] == "*":
+            t = ("proj", t[1], t[2][1:])
+        elif t[0] == "call" and t[1] in calls and t[2]:
+            t = t[2][0]
+        elif t[0] == "cast" and "Pointer" in t[2]:
+            t = t[1]
+        else:
+            return t
+
+
+def same_place_term(a, b):
+    """structural equality of two stripped terms (ignoring Site identity in calls)"""
+    a, b = strip(a), strip(b)
+    if a[0] != b[0]:
+        return False
+    if a[0] == "call":
+        return a[1] == b[1] and len(a[2]) == len(b[2]) and all(same_place_term(x, y) for x, y in zip(a[2], b[2]))
+    if a[0] == "proj":
+        return _strip_derefs(a[2]) == _strip_derefs(b[2]) and same_place_term(a[1], b[1])
+    if a[0] in ("ref", "discr"):
+        return same_place_term(a[1], b[1])
+    return a == b
+
+
+def _strip_derefs(proj):
+    return tuple(e for e in proj if e != "*")
+
+
+def term_s(t, depth=0):
+    if depth > 8:
+        return "..."
+    k = t[0]
+    if k == "const":
+        return repr(t[1])
+    if k == "arg":
+        return "arg%d" % t[1]
+    if k == "local":
+        return "_%d" % t[1]
+    if k == "fn":
+        return "fn " + t[1]
+    if k == "call":
+        return "%s(%s)" % (t[1].split("::")[-1] if t[1] else "?", ", ".join(term_s(a, depth + 1) for a in t[2]))
+    if k == "ref":
+        return "&" + term_s(t[1], depth + 1)
+    if k == "proj":
+        ps = []
+        for e in t[2]:
+            if e == "*":
+                ps.append("*")
+            elif e[0] == "f":
+                ps.append("." + str(e[3]))
+            elif e[0] == "dc":
+                ps.append(" as " + str(e[1]))
+            else:
+                ps.append(".%s" % (e[1],))
+        return "(%s)%s" % (term_s(t[1], depth + 1), "".join(ps))
+    if k == "binop":
+        return "%s(%s, %s)" % (t[1], term_s(t[2], depth + 1), term_s(t[3], depth + 1))
+    if k == "agg":
+        return "%s::%s{%s}" % (str(t[1]).split("::")[-1], t[2], ", ".join("%s: %s" % (f, term_s(v, depth + 1)) for f, v in t[3].items()))
+    if k in ("discr", "cast", "unop"):
+        return "%s(%s)" % (k, term_s(t[-1] if k == "unop" else t[1], depth + 1))
+    return str(t[:2])
+
+
+def subterms(t, depth=0):
+    """all subterms (pre-order)"""
+    yield t
+    if depth > 30:
+        return
+    k = t[0]
+    if k == "call":
+        for a in t[2]:
+            yield from subterms(a, depth + 1)
+    elif k in ("ref", "discr", "cast"):
+        yield from subterms(t[1], depth + 1)
+    elif k == "proj":
+        yield from subterms(t[1], depth + 1)
+    elif k == "binop":
+        yield from subterms(t[2], depth + 1)
+        yield from subterms(t[3], depth + 1)
+    elif k == "unop":
+        yield from subterms(t[2], depth + 1)
+    elif k == "agg":
+        for v in t[3].values():
+            yield from subterms(v, depth + 1)
